@@ -72,6 +72,8 @@ pub enum PeerCmd {
     RecvHave {
         addr: String,
         piece_index: usize,
+        /// Not announced by peer just now, but offered by manager (see BroadCmd::OfferPiece)
+        offered: bool,
         resp_ch: oneshot::Sender<HaveCmd>,
     },
     RecvBitfield {
